@@ -34,7 +34,7 @@ def run(tier, seed):
     ck.proof = lib.proof_step('props/C10.v', CONE)
     ck.broken += ck.proof['broken']
     if not ck.proof['driver_ok']:
-        return ck.finish(rule='driver unavailable')
+        ck.notes['driver'] = 'unavailable: model-side runs skipped, searching with the implementation-side oracles only'
     import soupsieve as sv
     from bs4 import BeautifulSoup
     strs = gen_strings(rnd, 1500 if tier == 'quick' else 30000, tier)
